@@ -292,6 +292,19 @@ class C07(F.Check):
             for ri, r in enumerate(reps[: (2 if self.tier == "quick" else 3)]):
                 add_closed("c07_rep_%d_%d" % (li, ri), "std::is_same<%s, %s>::value" % (C, cu(r)), True,
                            dict(key0, repeated=[x.label for x in r]), "repeat")
+            # the value-level spelling common_unit(u1, u2, ...) denotes the same type as CommonUnitT<U1, U2, ...>, in every argument order
+            forders = [list(range(len(ents)))] + [list(p) for p in self.perms_of(ents)[: (2 if self.tier == "quick" else 6)]]
+            if len(ents) >= 3:
+                forders.append(list(range(len(ents)))[::-1])
+                forders.append(list(range(1, len(ents))) + [0])
+            seen_o = set()
+            for fi, p in enumerate(forders):
+                if tuple(p) in seen_o:
+                    continue
+                seen_o.add(tuple(p))
+                pe = [ents[i] for i in p]
+                add_closed("c07_fn_%d_%d" % (li, fi), "std::is_same<std::remove_cv_t<decltype(common_unit(%s))>, %s>::value" % (
+                    ", ".join("%s{}" % x.cxx for x in pe), C), True, dict(key0, function_spelling=[x.label for x in pe]), "function_spelling")
             names = []
             for ui, e in enumerate(ents):
                 k = F.Kernel("c07_isinput_%d_%d" % (li, ui), "bool", [], "return std::is_same<%s, %s>::value;" % (C, e.cxx),
